@@ -58,6 +58,13 @@ class SymArray(_np.ndarray):
     def __array_finalize__(self, obj):
         pass
 
+    def __array_wrap__(self, obj, context=None, return_scalar=False):
+        if obj.ndim == 0 and obj.dtype == object:
+            return obj[()]
+        if obj.ndim == 0 and return_scalar:
+            return obj[()]
+        return obj.view(SymArray) if obj.dtype == object else _np.asarray(obj)
+
     def __getitem__(self, key):
         return super().__getitem__(_fix_key(key))
 
@@ -98,6 +105,8 @@ class SymArray(_np.ndarray):
 
 
 def wrap(x):
+    if isinstance(x, _np.ndarray) and x.dtype == object and x.ndim == 0:
+        return x[()]
     if isinstance(x, _np.ndarray) and x.dtype == object and not isinstance(x, SymArray):
         return x.view(SymArray)
     if isinstance(x, tuple):
@@ -284,25 +293,31 @@ def _isscalar(x):
     return isinstance(x, Sym) or _np.isscalar(x)
 
 
+def _keep(x):
+    if isinstance(x, _np.ndarray) and x.dtype == object and not isinstance(x, SymArray):
+        return x.view(SymArray)
+    return x
+
+
 def _array(obj, *a, **k):
     if has_sym(obj) and "dtype" not in k and not a:
-        return wrap(_np.array(obj, dtype=object, **k))
+        return _keep(_np.array(obj, dtype=object, **k))
     if has_sym(obj):
         dt = k.get("dtype", a[0] if a else None)
         if dt is not None and _np.dtype(dt).kind in "fiu":
             k = dict(k)
             k.pop("dtype", None)
-            return wrap(_np.array(obj, dtype=object, **k))
-    return wrap(_np.array(obj, *a, **k))
+            return _keep(_np.array(obj, dtype=object, **k))
+    return _keep(_np.array(obj, *a, **k))
 
 
 def _asarray(obj, *a, **k):
     if isinstance(obj, Sym):
-        return wrap(_np.asarray(obj, dtype=object))
+        return _keep(_np.asarray(obj, dtype=object))
     if has_sym(obj) and not isinstance(obj, _np.ndarray):
-        return wrap(_np.asarray(obj, dtype=object))
+        return _keep(_np.asarray(obj, dtype=object))
     if isinstance(obj, _np.ndarray) and obj.dtype == object:
-        return wrap(obj)
+        return _keep(obj)
     return _np.asarray(obj, *a, **k)
 
 
